@@ -48,10 +48,10 @@ NULLTEST = r"(?:!\s*{v}\b|{v}\s*==\s*(?:NULL|0|nullptr)|{v}\s*!=\s*(?:NULL|0|nul
 def extract(repo):
     h = _strip(open(os.path.join(repo, "include/clstepcore/complexSupport.h")).read())
     tn = _strip(open(os.path.join(repo, "src/clstepcore/trynext.cc")).read())
-    m = re.search(r"#define\s+LISTEND\s+(\d+)", h)
+    m = re.search(r"#define\s+LISTEND\s+(\d+|INT_MAX)\b", h)
     if not m:
-        raise ValueError("LISTEND not found")
-    listend = int(m.group(1))
+        raise ValueError("LISTEND not found (expected a number or INT_MAX)")
+    listend = 2147483647 if m.group(1) == "INT_MAX" else int(m.group(1))
     marks, matches, joins = _enum(h, "MarkType"), _enum(h, "MatchType"), _enum(h, "JoinType")
     m = re.search(r"OrList\s*\(\s*\)\s*:\s*MultList\s*\(\s*OR\s*\)\s*,\s*choice\s*\(\s*(-?\d+)\s*\)\s*,\s*choice1\s*\(\s*(-?\d+)\s*\)\s*,\s*choiceCount\s*\(\s*(\d+)\s*\)", h)
     if not m:
